@@ -69,19 +69,31 @@ def gen_struct(rng, b, DT=DT, twins=False):
     return out
 
 
-def build_td(struct, rng, b, device, names):
+def build_td(struct, rng, b, device, names, nontensors=False):
     from tensordict import TensorDict
     td = TensorDict({}, batch_size=b, device=device, names=names)
     for i, (path, dt, shape) in enumerate(struct):
         if len(path) == 2 and path[0] not in td.keys():
             td[path[0]] = TensorDict({}, batch_size=b, device=device, names=names)
         td[path] = mk_tensor(rng, dt, shape, i)
+    if nontensors:
+        # NonTensorData entries: kept in the metadata of their node, not in the storage
+        if rng.random() < 0.4:
+            td.set_non_tensor("s", rng.choice(["hello", "x"]))
+        if "n" in td.keys() and rng.random() < 0.3:
+            td["n"].set_non_tensor("q", rng.choice(["in", "y"]))
     return td
 
 
+def nt_atom(v):
+    """a NonTensorData entry as the metadata record it: data, batch size, device"""
+    return f"{v.data}:{'.'.join(str(x) for x in v.batch_size) or '-'}:{'none' if v.device is None else v.device}"
+
+
 def nodes_of(td, path=()):
-    from tensordict import TensorDictBase
-    out = [[list(path), list(td.batch_size), list(td.names) if td._has_names() else None, None if td.device is None else str(td.device), bool(td.is_locked)]]
+    from tensordict import NonTensorData, TensorDictBase
+    out = [[list(path), list(td.batch_size), list(td.names) if td._has_names() else None, None if td.device is None else str(td.device), bool(td.is_locked),
+            [[k, nt_atom(v)] for k, v in td.items() if isinstance(v, NonTensorData)]]]
     for k, v in td.items():
         if isinstance(v, TensorDictBase):
             out += nodes_of(v, path + (k,))
@@ -97,20 +109,20 @@ def obs_of(td):
         for k, v in t.items():
             if isinstance(v, TensorDictBase):
                 walk(v, path + (k,))
-            else:
+            elif isinstance(v, torch.Tensor):
                 leaves.append([list(path + (k,)), str(v.dtype), list(v.shape), sx_bytes(v)])
     walk(td, ())
     return [sorted(nodes_of(td), key=lambda n: n[0]), leaves]
 
 
 def norm_model_obs(o):
-    nodes = sorted(([list(n[0]) if isinstance(n[0], list) else [], list(n[1]), None if n[2] == "none" else list(n[2]), None if n[3] == "none" else n[3], n[4] == "true"] for n in o[0]), key=lambda n: n[0])
+    nodes = sorted(([list(n[0]) if isinstance(n[0], list) else [], list(n[1]), None if n[2] == "none" else list(n[2]), None if n[3] == "none" else n[3], n[4] == "true", [list(q) for q in n[5]] if len(n) > 5 else []] for n in o[0]), key=lambda n: n[0])
     leaves = [[list(l[0]), l[1], list(l[2]), list(l[3])] for l in o[1]]
     return [nodes, leaves]
 
 
 def dev_norm(o):
-    return [[[n[0], n[1], n[2], n[3] or "cpu", n[4]] for n in o[0]], o[1]]
+    return [[[n[0], n[1], n[2], n[3] or "cpu", n[4]] + ([[[q[0], q[1].rsplit(":", 1)[0] + ":" + ("cpu" if q[1].rsplit(":", 1)[1] == "none" else q[1].rsplit(":", 1)[1])] for q in n[5]]] if len(n) > 5 else [[]]) for n in o[0]], o[1]]
 
 
 def flat_meta(md, prefix=()):
@@ -244,6 +256,18 @@ def gen_history(rng, td_paths, consolidated_at):
     pass
 
 
+TORCH_SAVE_REFUSAL = "view the same data as different types"
+
+
+def torch_trip(td):
+    """torch.save / torch.load through a buffer (pickle with torch's storage records; goes through `_reduce_td` like pickle)"""
+    import io
+    buf = io.BytesIO()
+    torch.save(td, buf)
+    buf.seek(0)
+    return torch.load(buf, weights_only=False)
+
+
 def expand_ops(ops):
     """the ops as the model runs them: a trip to another process and back is two reductions"""
     out = []
@@ -269,10 +293,15 @@ def compare_history(run, m, td, case, consolidated, is_current):
         run.corr("history.snapshot(layout, storage)", case, impl_lay, model_lay)
         if is_current is not None:
             run.corr("history.freshness", case, "fresh" if is_current(td, cons) else "stale", m_fresh)
-    for how in ("pickle", "deepcopy"):
+    in_file = any(o[0] == "consolidate" and len(o) > 1 and o[1] is True for o in case["ops"])
+    for how in ("pickle", "deepcopy", "torch.save"):
+        if how == "torch.save" and in_file:
+            # a tensordict consolidated in a file: torch.save of it once it is stale writes a record torch.load refuses (recorded finding
+            # C11-torch-save-stale-file-consolidated, probed in c11_trips); the histories use torch.save on in-memory consolidations only
+            continue
         try:
             with time_limit(120):
-                r = pickle.loads(pickle.dumps(td)) if how == "pickle" else copy.deepcopy(td)
+                r = pickle.loads(pickle.dumps(td)) if how == "pickle" else copy.deepcopy(td) if how == "deepcopy" else torch_trip(td)
             got = by_path(obs_of(r))
             if td.is_locked:
                 # "including lock state": the copy behaves locked (a sub-tensordict cannot be unlocked on its own, nothing can be added)
@@ -282,6 +311,11 @@ def compare_history(run, m, td, case, consolidated, is_current):
         except TimeoutError as e:
             raise Infra(f"{how} timed out: {e}")
         except Exception as e:  # noqa: BLE001
+            if how == "torch.save" and TORCH_SAVE_REFUSAL in str(e):
+                # torch's own restriction (any container of such tensors is refused): a stale consolidated tensordict is pickled entry by
+                # entry, and its entries are views of one uint8 storage under several dtypes. Outside what torch.save can carry.
+                run.count("torch.save.refused_by_torch", "views of one storage under several dtypes")
+                continue
             got = ["err", f"{type(e).__name__}: {str(e)[:120]}"]
         run.corr(f"history.{how}(reduceFixed)", case, dev_norm(got) if got[0] != "err" else got, dev_norm(by_path(m_fixed)))
         now = by_path(obs_of(td))
@@ -353,6 +387,9 @@ def replay_histories(run, drv, cases, scratch):
                     nm = node_meta[pre]
                     td[pre] = TensorDict({}, batch_size=nm[1], device=nm[3], names=nm[2])
             td[tuple(path)] = tensor_from(dt, shape, bs)
+        for x in c["nodes"]:
+            for k_, payload in (x[5] if len(x) > 5 else []):
+                (td if not x[0] else td[tuple(x[0])]).set_non_tensor(k_, str(payload).split(":")[0])
         consolidated = False
         for op in c["ops"]:
             kind = op[0]
@@ -376,9 +413,14 @@ def replay_histories(run, drv, cases, scratch):
             elif kind == "rename":
                 td.rename_key_(tuple(op[1]), tuple(op[2]))
             elif kind == "reduce":
-                td = copy.deepcopy(td) if op[1] == "deepcopy" else pickle.loads(pickle.dumps(td))
+                td = copy.deepcopy(td) if op[1] == "deepcopy" else torch_trip(td) if op[1] == "torch.save" else pickle.loads(pickle.dumps(td))
                 if op[1] in ("fork", "spawn"):
                     td = pickle.loads(pickle.dumps(td))
+            elif kind == "setnt":
+                tgt = td if not op[1] else td[tuple(op[1])]
+                tgt.set_non_tensor(op[2], str(op[3]).split(":")[0])
+            elif kind == "delnt":
+                del (td if not op[1] else td[tuple(op[1])])[op[2]]
             elif kind == "swap":
                 va, vb = td[tuple(op[1])], td[tuple(op[2])]
                 td[tuple(op[1])] = vb
@@ -413,7 +455,7 @@ def run_histories(run, drv):
             device = rng.choice([None, None, "cpu"])
             names = rng.choice([None, None, ["t", "u"][: len(b)]])
             struct = gen_struct(rng, b, DT_HIST, twins=True)
-            td = build_td(struct, rng, b, device, names)
+            td = build_td(struct, rng, b, device, names, nontensors=True)
             init_nodes = nodes_of(td)
             init_entries = [leaf_sx(tuple(l[0]), td[tuple(l[0])]) for l in obs_of(td)[1]]
             ops_sx = []
@@ -462,17 +504,26 @@ def run_histories(run, drv):
                 if not aliased and all(td[p_].numel() > 0 for p_ in paths):
                     choices += ["reduce"]
                 if not locked:
-                    choices += ["set_new", "set_new", "replace", "del", "rename", "set_nested", "swap", "swap", "swap_rename"] + ([] if reduced else ["assign"])
+                    choices += ["set_new", "set_new", "replace", "del", "rename", "set_nested", "swap", "swap", "swap_rename", "setnt", "delnt"] + ([] if reduced else ["assign"])
                 kind = rng.choice(choices)
                 if kind == "reduce":
                     # the history goes on with the pickled / deep-copied tensordict, or with the one that came back from another process
-                    how = rng.choice(["pickle", "deepcopy", "fork"] + (["spawn"] if "spawn" in pools else []))
+                    how = rng.choice(["pickle", "deepcopy", "fork"] + (["spawn"] if "spawn" in pools else [])
+                                     + ([] if any(o[0] == "consolidate" and len(o) > 1 and o[1] is True for o in ops_sx) else ["torch.save"]))
                     try:
                         with time_limit(120):
                             if how == "pickle":
                                 td = pickle.loads(pickle.dumps(td))
                             elif how == "deepcopy":
                                 td = copy.deepcopy(td)
+                            elif how == "torch.save":
+                                try:
+                                    td = torch_trip(td)
+                                except RuntimeError as e_:
+                                    if TORCH_SAVE_REFUSAL not in str(e_):
+                                        raise
+                                    how = "pickle"
+                                    td = pickle.loads(pickle.dumps(td))
                             else:
                                 td = pools[how].apply(echo, (td,))
                     except TimeoutError as e:
@@ -571,6 +622,23 @@ def run_histories(run, drv):
                         slots.discard(dst)
                         if not cl:
                             slots.add(dst)
+                elif kind == "setnt":
+                    from tensordict import NonTensorData
+                    node = () if ("n" not in td.keys() or rng.random() < 0.6) else ("n",)
+                    tgt = td if not node else td["n"]
+                    have = [k_ for k_, v_ in tgt.items() if isinstance(v_, NonTensorData)]
+                    k_ = rng.choice(have + [next(fresh_names)]) if have else next(fresh_names)
+                    tgt.set_non_tensor(k_, rng.choice(["hello", "x", "pay"]))
+                    ops_sx.append(["setnt", list(node), k_, nt_atom(tgt.get(k_))])
+                    del tgt     # (no second handle on the tensordict: a consolidated copy shares its non-tensor entries with a live, locked source)
+                elif kind == "delnt":
+                    from tensordict import NonTensorData
+                    cands = [(node, k_) for node in ((), ("n",)) if (not node or "n" in td.keys()) for k_, v_ in (td if not node else td["n"]).items() if isinstance(v_, NonTensorData)]
+                    if not cands:
+                        continue
+                    node, k_ = rng.choice(cands)
+                    del (td if not node else td["n"])[k_]
+                    ops_sx.append(["delnt", list(node), k_])
                 elif kind == "replace" and paths:
                     p = rng.choice(paths)
                     old = td[p]
